@@ -29,6 +29,20 @@ fixed("C04", "75916f8", ["c04:%s:LT:%s:stall" % (n, o) for n in ("tcp", "unix") 
 fixed("C04", "f1ed07f", ["c04:tcp:ET:timer:stall", "c04:tcp:ET:foreign:stall", "c04:unix:ET:foreign:stall", "c04:tcp:ET:ondata:stall"],
       "ET: a direct Write interrupted by EINTR is cached although the socket stays writable; no edge follows and the backlog never drains (shim phase, profile eintr-first)")
 
+# ---- inbound
+fixed("C02", "0f4f1ee", ["c02:%s:%s:async:default:spin-no-delivery" % (n, m) for n in ("tcp", "unix") for m in ("ET", "ONESHOT")] +
+      ["c02:udp:%s:async:default:datagram-count" % m for m in ("ET", "ONESHOT")],
+      "AsyncReadInPoller with the default IOExecute: pool created with NewIO(0,0,0) (no workers, zero-length read buffers): nothing is delivered and the read loop spins at 100% CPU")
+fixed("C02", "323c961", ["c02:udp:%s:sync:%s:datagrams-not-delivered" % (m, e) for m in ("ET", "ONESHOT") for e in ("default", "goroutine", "pool")],
+      "UDP listener in ET/ONESHOT: burst of datagrams, only the first is read (read loop stops after a short read; a datagram read is always short)")
+fixed("C02", "b687757", ["c02:udp:%s:async:%s:datagram-content" % (m, e) for m in ("ET", "ONESHOT") for e in ("goroutine", "pool", "default")],
+      "AsyncRead never restores the read buffer length after a callback: a datagram larger than an earlier one is truncated")
+fixed("C02", "e30dbb9", ["c02:*:ONESHOT:*:read-stall (seen as undecided stalls in C04/C01 sweeps)"],
+      "Start() sets Engine.isOneshot after launching the pollers; a poller scheduled early runs with one-shot handling off and never re-arms a descriptor after its first event")
+for m, a in (("LT", "sync"), ("LT", "async"), ("ONESHOT", "sync"), ("ONESHOT", "async"), ("ET", "async")):
+    known("C02", "c02:halfclose:%s:%s:unread-data-dropped" % (m, a),
+          "peer writes a burst and immediately half-closes/closes: EPOLLRDHUP arrives with the data, the poller closes the connection right after its bounded read loop (or before the async read task ran) and the bytes still unread are dropped (poller_epoll.go: 'if ev.Events&epollEventsError != 0 { closeWithError(io.EOF) }'); ET+sync drains first and is healthy")
+
 # ---- HTTP parser
 fixed("C07", "f310c1b", ["c07:request:trailer-value-truncated-at-space", "c07:response:trailer-value-truncated-at-space"],
       "chunked trailer 'X-T: hello world' delivered as 'hello'")
